@@ -14,10 +14,9 @@ RULE = ("ordered pairs of automata (eps-NFA/NFA/DFA, both orders are separate mo
         "extracted result) and isomorphism of the two minimised sides of reference-equal pairs. "
         "Non-trivial: both automata have >=1 transition and at least one language is neither empty nor Sigma*; "
         "distinct = canonical hash of the pair."
-        ' Later additions: explicit incomplete sinks vs the same language without them; an operand edited through the public mutators (start state included) after a comparison and compared again.')
+        ' Later additions: explicit incomplete sinks vs the same language without them; an operand edited through the public mutators (start state included) after a comparison and compared again; alphabets whose symbol values are not mutually orderable (1 next to "1", 0 next to the empty string).')
 ASSUMPTIONS = ["which canonical convention minimize() uses (trim or complete) is not demanded, only that it is the "
-               "same on both sides of an equal pair",
-               "symbol values within one pair are mutually orderable (mixed int/str symbol values are not generated)"]
+               "same on both sides of an equal pair"]
 TIERS = {
     "quick": {"workers": 4, "random": 2500},
     "thorough": {"workers": 16, "random": 30000, "pytest": True, "exhaustive": True, "hard_timeout": 3000},
@@ -202,9 +201,10 @@ def plan(tier, rng, sl, nslices, stats):
             b.pop("long_words", None)
             yield {"pair": [a, b]}
             continue
-        if r < 0.12:
-            vc = rng.choice(["tuple", "inject"])
-            a = gfa.random_case(rng, max_states=4, max_syms=2, vcs=[vc])
+        if r < 0.2:
+            # "mixed" / "binary": alphabets whose symbol values are not mutually orderable (1 and "1", 0 and "")
+            vc = rng.choice(["tuple", "inject"]) if r < 0.12 else rng.choice(["mixed", "mixed", "binary", "hashclash"])
+            a = gfa.random_case(rng, max_states=4, max_syms={"mixed": 3, "binary": 4}.get(vc, 2), vcs=[vc])
             b = gfa.derive_equal(rng, a) if rng.random() < 0.5 else gfa.derive_near(rng, a)
             if b["vc"] != a["vc"]:
                 b["vc"] = a["vc"]
